@@ -142,7 +142,7 @@ class C07(Harness):
             cv = sp.SingleWindowSplitter(fh=fh, window_length=inp["wl"])
         log = []
         Rec = make_recorder(W, log)
-        sc = make_score(W)
+        sc = make_score(W, gib=bool(inp["return_data"]))  # the scorer's direction flag must not change the reported value
         fc = Rec()
         if inp.get("prefitted"):
             fc.fit(y, X)
